@@ -293,6 +293,7 @@ def check_period(ck):
 
 
 def run(ck):
+    ck._orig_repo = getattr(ck, "_orig_repo", None) or ck.repo
     ck.repo = normalized(ck.repo, NORM_MODULES)  # alias / named-boolean / temporary / setter-helper normalisation (vt/x_syncnorm.py)
     ck.rule("C39.schedule-sites", "_schedule_next is called only from start() and from the finally block of _run (after the callback and its awaitable finished); callback errors are logged and swallowed")
     ck.rule("C39.running", "_run invokes the callback only while _running; _schedule_next arms exactly one timer while _running and none otherwise; _running has no other writers than __init__/start/stop")
